@@ -516,7 +516,15 @@ class Capsule(Family):
         for (sp, cid, mode), o in zip(case["reqs"], obs["res"]):
             r = o["r"]
             ks.add((mode if mode != "f" else "") + ":".join(str(t) for t in r[:2]))
-        return case["via"] + " " + ",".join(sorted(ks))[:70]
+        rules = case["rules"] or []
+        feat = ""
+        if any(a[0] != b[0] and a[0].startswith(b[0]) for a in rules for b in rules):
+            feat += "N"                      # nested / overlapping prefixes
+        if any(f == [] for _p, _q, f in rules):
+            feat += "E"                      # empty allow-list
+        if any(not p.endswith("/") for p, _q, _f in rules):
+            feat += "S"                      # prefix not ending in a slash
+        return case["via"] + ":" + (feat or "-") + " " + ",".join(sorted(ks))[:64]
 
 
 class MwOnly(Family):
